@@ -124,9 +124,10 @@ def run(ctx):
         for e in calls[:1]:
             nrun += 1
             c = e.node
-            ctx.check(len(c.args) == 1 and norm(c.args[0]) == 'self.args.command_args', 'C13.3', 'child:argv-verbatim', f_run.loc(c), 'argv is the forwarded argument list itself',
-                      'argv is %s' % [norm(a)[:60] for a in c.args])
-            kws = {k.arg: norm(k.value) for k in c.keywords}
+            # (read from the call EVENT: locals holding the list or the keyword values are looked through)
+            ctx.check(len(e.args) == 1 and norm(e.args[0]) == 'self.args.command_args', 'C13.3', 'child:argv-verbatim', f_run.loc(c), 'argv is the forwarded argument list itself',
+                      'argv is %s' % [norm(a)[:60] for a in e.args])
+            kws = {k_: norm(v_) for k_, v_ in e.kwargs.items()}
             ctx.check(set(kws) <= {'stderr', 'env', 'bufsize'} and kws.get('stderr') == 'self.stderr_fd', 'C13.3', 'child:keywords', f_run.loc(c),
                       'only stderr (our pipe), env and bufsize are set: stdout/stdin untouched, no shell, no check', 'subprocess.run keywords are %s' % kws)
             idx = p.events.index(e)
